@@ -6,7 +6,7 @@ first one: frozen cells keep the value they had at trim time).
 """
 import itertools
 
-from vp import hist, wb, wbgen
+from vp import realbooks, hist, wb, wbgen
 
 PROP = 'C08'
 LEVEL = 'exploration'
@@ -22,7 +22,7 @@ FLOORS = {
     'quick': {'trims': 150, 'rounds': 600, 'output_compares': 2500, 'with_range_input': 20,
               'with_buried_input': 10, 'output_is_input': 10, 'output_without_input': 10,
               'cfg:mem': 40, 'cfg:xlsx': 30, 'reloaded': 40, 'trim_before_any_evaluate': 30,
-              'rounds_that_changed_an_output': 200},
+              'rounds_that_changed_an_output': 200, 'real_book_trims': 50},
     'thorough': {'trims': 3500, 'rounds': 14000, 'with_range_input': 500, 'with_buried_input': 250,
                  'reloaded': 1000},
 }
@@ -286,6 +286,8 @@ def run(ctx):
     i = 0
     if ctx.shard == 0:
         iterative_trim(ctx)
+    # twin runs on the workbooks shipped with the repository
+    realbooks.run_cases(ctx, realbooks.c08_case, realbooks.acyclic_books(), 8 if ctx.quick else 80, fraction=0.25)
     while not ctx.out_of_time():
         i += 1
         spec, meta = wbgen.dag(rng, arrays=False, formula_ratio=0.65)
@@ -299,6 +301,9 @@ def run(ctx):
 
 
 def replay(ctx, case):
+    if case.get('kind') == 'real-book':
+        realbooks.c08_case(ctx, case['book'], case['case_seed'])
+        return
     if case.get('kind') == 'iterative-trim':
         iterative_trim(ctx)
         return
